@@ -241,6 +241,7 @@ pub fn run_case(case: &Case) -> RunOutput {
     let all_done = |done: &Rc<RefCell<Vec<bool>>>| setup_done.get() && done.borrow().iter().all(|d| *d);
 
     // ---- run
+    let horizon = horizon_of(&case);
     loop {
         if sim.steps.get() > budget {
             flags.inconclusive = true;
@@ -252,8 +253,8 @@ pub fn run_case(case: &Case) -> RunOutput {
         if sim.step() {
             continue;
         }
-        if !sim.advance_time(u64::MAX) {
-            // nothing runnable, no timer: the unfinished clients are stuck
+        if !sim.advance_time(horizon) {
+            // nothing runnable and no timer (or only timers beyond the horizon): the unfinished clients are stuck
             flags.stuck_clients =
                 done.borrow().iter().enumerate().filter(|(_, d)| !**d).map(|(i, _)| i).collect();
             break;
@@ -354,6 +355,58 @@ pub fn run_case(case: &Case) -> RunOutput {
     let hist = std::mem::take(&mut *cx.hist.borrow_mut());
     let actors = cx.actors.borrow().clone();
     RunOutput { hist, tasks, actors, flags }
+}
+
+fn steps_sleep(w: &[Step]) -> u64 {
+    w.iter()
+        .map(|s| match s {
+            Step::Sleep(t) => *t as u64,
+            Step::AddTimer(t) => t.ticks as u64 + steps_sleep(&t.work),
+            _ => 0,
+        })
+        .sum()
+}
+
+/// virtual time after which a still unfinished client is considered stuck
+pub fn horizon_of(case: &Case) -> u64 {
+    let mut total: u64 = 0;
+    let mut max_timer: u64 = 0;
+    let mut beh = |b: &Behavior| {
+        let mut t = steps_sleep(&b.started) + steps_sleep(&b.stopped) + steps_sleep(&b.finished);
+        for s in b.started.iter().chain(&b.stopped).chain(&b.finished) {
+            if let Step::AddTimer(ts) = s {
+                max_timer = max_timer.max(ts.ticks as u64);
+            }
+        }
+        t += 1;
+        t
+    };
+    for a in &case.actors {
+        total += beh(&a.beh);
+        if let Some((t, _)) = a.spawn.timeout() {
+            total += t as u64;
+        }
+    }
+    for b in &case.default_beh {
+        total += 3 * beh(b);
+    }
+    for c in &case.clients {
+        for op in c {
+            match op {
+                ClientOp::Send { work, .. } | ClientOp::Call { work, .. } => {
+                    total += steps_sleep(work);
+                    for s in work {
+                        if let Step::AddTimer(ts) = s {
+                            max_timer = max_timer.max(ts.ticks as u64);
+                        }
+                    }
+                }
+                ClientOp::Sleep(t) => total += *t as u64,
+                _ => {}
+            }
+        }
+    }
+    4 * total + 20 * max_timer + 200
 }
 
 fn convert(addr: &AnyAddr, kind: HKind) -> Option<H> {
